@@ -150,8 +150,9 @@ def unpack_attributes(attributes, namespace, default, restricted_namespace):
                 ns = namespace[prefix]
             except KeyError:
                 if restricted_namespace:
-                    raise KeyError(
-                        "Undefined namespace prefix: %s." % prefix)
+                    raise ParseError(
+                        "Undefined namespace prefix: %s." % prefix,
+                        attribute['name'])
                 else:
                     ns = default
         else:
